@@ -53,6 +53,8 @@ impl<T> ResourceStorage<T> {
 
 	pub fn remove_and_add(&mut self, remove_test: impl FnMut(&T) -> bool) {
 		for (_, resource) in self.resources.drain_filter(remove_test) {
+			#[cfg(kira_verif)]
+			crate::verif::yield_point("resource_removed_before_unused_push");
 			self.unused_resource_producer
 				.push(resource)
 				.unwrap_or_else(|_| panic!("unused resource producer is full"));
@@ -164,6 +166,8 @@ impl<T> SelfReferentialResourceStorage<T> {
 			let resource = &mut self.resources[key];
 			if remove_test(resource) {
 				let resource = self.resources.remove(key).unwrap();
+				#[cfg(kira_verif)]
+				crate::verif::yield_point("resource_removed_before_unused_push");
 				self.unused_resource_producer
 					.push(resource)
 					.unwrap_or_else(|_| panic!("unused resource producer is full"));
